@@ -829,9 +829,11 @@ func (p *peer) process(data []byte) {
 				q.paT = p.theirQ[pa.QuestionId()]
 			}
 			if !p.openTheirQ[pa.QuestionId()] {
-				// use after Finish: a conformance slip the listed properties do not cover; a real peer answers with an exception
+				// use after Finish: a protocol error - a real peer (this library included) aborts the
+				// connection, taking every other call with it
 				s.Probe("conn_called_promised_answer_after_its_finish")
 				q.mustFail = true
+				p.r.mfail("call_on_finished_question", "question.go:(*question).PipelineSend", fmt.Sprintf("the Conn sent Call (question %d, token %d) addressed to the promised answer of its question %d after sending that question's Finish", id, q.token, pa.QuestionId()))
 			}
 		}
 		s.Logf("conn -> peer: Call q=%d target=%s token=%d params=%v", id, q.target, q.token, q.paramCaps)
